@@ -252,6 +252,11 @@ func (propC16) Run(scI interface{}) (o *Outcome) {
 			names = append(names, n)
 		}
 	}
+	// a template without any content
+	srcs["empty"] = ""
+	if err := A.RegisterString("empty", ""); err == nil {
+		names = append(names, "empty")
+	}
 	// names with dots inside (file name mapping must not cut them)
 	if sc.Via != "bytes" {
 		// on the disk: a name in a sub-directory next to the name one gets by folding the separator
@@ -412,6 +417,13 @@ func (propC16) Run(scI interface{}) (o *Outcome) {
 			if err := B.LoadFromCompiledData(s.data); err != nil {
 				return fail("LoadFromCompiledData failed on serialised bytes", fmt.Sprintf("%s: %v", s.name, err))
 			}
+			if sc.WorldSeed%3 == 0 {
+				// the caller reuses its buffer once the call has returned (reading the next file into it, say)
+				for k := range s.data {
+					s.data[k] = 'X'
+				}
+				o.Probes["caller_buffers_reused"]++
+			}
 		}
 	default:
 		o.Probes["via_disk"]++
@@ -559,7 +571,7 @@ func (propC16) Run(scI interface{}) (o *Outcome) {
 			installSpies(B2, hubB2)
 			for _, s := range sers {
 				if s.name != "\x00raw" && s.name != mainName {
-					B2.LoadFromCompiledData(s.data)
+					B2.LoadFromCompiledData(append([]byte(nil), s.copy...)) // (s.data may have been reused by now)
 				}
 			}
 			for _, eng := range []*twig.Engine{B, B2} {
